@@ -216,6 +216,15 @@ def shard_dialogue(P, vtag, all_metrics, n, seed):
 
 
 def run(R):
+    _run(R)
+    # objects the LIBRARY builds itself (text extractor, from_rh_vector, CLI, the repository's own tests)
+    # are judged by the same oracles through icontract contracts attached to the real classes
+    from .. import contracts
+    contracts.session(R, "C08")
+    R.require("contract:clean_vector")
+
+
+def _run(R):
     R.rule = RULE
     R.require("self-accept", "official-pattern")
     R.assumptions = ["the vectorString patterns of the pinned FIRST schemas encode the official grammar; they use only regex "
